@@ -59,7 +59,7 @@ pub(crate) fn display_width(text: &str) -> usize {
     let control_terminate: char = 'm';
 
     for ch in text.chars() {
-        if ch.is_ascii_control() {
+        if ch == '\u{1b}' {
             control_sequence = true;
         } else if control_sequence && ch == control_terminate {
             control_sequence = false;
